@@ -102,11 +102,25 @@ static void make_codeword (const cfg_t *c)
 	} else if (c->codec == 3) {
 		int row;
 		Href = rfc5170_H (c->k, c->n, c->N1, (uint64_t) c->seed, NULL);
+		bm_build_index (Href);	/* outside the sessions' allocation windows */
 		for (row = 0; row < c->r; row++) {
 			unsigned char *p = CW[c->k + row];
 			if (row > 0) memcpy (p, CW[c->k + row - 1], (size_t) c->len);
 			for (i = 0; i < c->k; i++)
 				if (bm_get (Href, row, i)) for (j = 0; j < c->len; j++) p[j] ^= CW[i][j];
+		}
+		if (c->n > 64 && c->n <= 2000) {	/* reference self-check: word-parallel and indexed peeling agree (they are the C04 oracle) */
+			int W = (c->n + 63) / 64 + 1, t, col;
+			uint64_t kn[W];
+			for (t = 0; t < 12; t++) {
+				memset (kn, 0, sizeof kn);
+				for (col = 0; col < c->n; col++) {
+					unsigned h = ((unsigned) col * 2654435761u + (unsigned) t * 40503u) >> 9;
+					int in = t == 0 ? 0 : t == 1 ? col >= c->k : t == 2 ? col != c->k / 2 && col < c->k : t < 8 ? (h & 3) != 0 : (h & 1);
+					if (in) kn[col >> 6] |= (uint64_t) 1 << (col & 63);
+				}
+				if (gf2_peel_selfcheck (Href, kn)) { vf_incomplete ("MACHINERY: the two reference peeling implementations disagree (k=%d n=%d N1=%d seed=%d pattern %d)", c->k, c->n, c->N1, c->seed, t); fflush (NULL); _exit (3); }
+			}
 		}
 	} else {
 		int mm = c->codec == 1 ? 8 : c->m;
@@ -232,38 +246,38 @@ static int world_open (world_t *w)
 {
 	of_status_t st;
 	of_codec_id_t id = G.codec == 1 ? OF_CODEC_REED_SOLOMON_GF_2_8_STABLE : G.codec == 2 ? OF_CODEC_REED_SOLOMON_GF_2_M_STABLE : G.codec == 5 ? OF_CODEC_2D_PARITY_MATRIX_STABLE : OF_CODEC_LDPC_STAIRCASE_STABLE;
-	st = of_create_codec_instance (&w->ses, id, OF_DECODER, 0);
+	st = VF_LIB (of_create_codec_instance (&w->ses, id, OF_DECODER, 0));
 	if (st != OF_STATUS_OK || !w->ses) { viol (PROP, "call=create|kind=status-not-ok"); return 0; }
 	if (G.codec == 1) {
 		of_rs_parameters_t p; memset (&p, 0, sizeof p);
 		p.nb_source_symbols = (UINT32) G.k; p.nb_repair_symbols = (UINT32) G.r; p.encoding_symbol_length = (UINT32) G.len;
-		st = of_set_fec_parameters (w->ses, (of_parameters_t *) &p);
+		st = VF_LIB (of_set_fec_parameters (w->ses, (of_parameters_t *) &p));
 	} else if (G.codec == 2) {
 		of_rs_2_m_parameters_t p; memset (&p, 0, sizeof p);
 		p.nb_source_symbols = (UINT32) G.k; p.nb_repair_symbols = (UINT32) G.r; p.encoding_symbol_length = (UINT32) G.len; p.m = (UINT16) G.m;
-		st = of_set_fec_parameters (w->ses, (of_parameters_t *) &p);
+		st = VF_LIB (of_set_fec_parameters (w->ses, (of_parameters_t *) &p));
 	} else if (G.codec == 5) {
 		of_2d_parity_parameters_t p; memset (&p, 0, sizeof p);
 		p.nb_source_symbols = (UINT32) G.k; p.nb_repair_symbols = (UINT32) G.r; p.encoding_symbol_length = (UINT32) G.len;
-		st = of_set_fec_parameters (w->ses, (of_parameters_t *) &p);
+		st = VF_LIB (of_set_fec_parameters (w->ses, (of_parameters_t *) &p));
 	} else {
 		of_ldpc_parameters_t p; memset (&p, 0, sizeof p);
 		p.nb_source_symbols = (UINT32) G.k; p.nb_repair_symbols = (UINT32) G.r; p.encoding_symbol_length = (UINT32) G.len;
 		p.prng_seed = G.seed; p.N1 = (UINT8) G.N1;
-		st = of_set_fec_parameters (w->ses, (of_parameters_t *) &p);
+		st = VF_LIB (of_set_fec_parameters (w->ses, (of_parameters_t *) &p));
 	}
 	if (st != OF_STATUS_OK) { viol ("C09", "call=set_fec_parameters|kind=valid-configuration-rejected"); return 0; }
 	w->ok = 1;
 	if (G.codec == 3) {
 		bool isnull = false;
-		if (of_get_control_parameter (w->ses, OF_CRTL_LDPC_STAIRCASE_IS_LAST_SYMBOL_NULL, &isnull, sizeof isnull) == OF_STATUS_OK) w->null_last = isnull ? 1 : 0;
+		if (VF_LIB (of_get_control_parameter (w->ses, OF_CRTL_LDPC_STAIRCASE_IS_LAST_SYMBOL_NULL, &isnull, sizeof isnull)) == OF_STATUS_OK) w->null_last = isnull ? 1 : 0;
 	}
 	if (G.cbmode == 4) {
 		/* only the decoded-REPAIR-symbol callback, which "is not expected to return any data buffer" (returns NULL) */
-		st = of_set_callback_functions (w->ses, NULL, rep_cb, w);
+		st = VF_LIB (of_set_callback_functions (w->ses, NULL, rep_cb, w));
 		if (st != OF_STATUS_OK) viol ("C10", "call=set_callback_functions|kind=status-not-ok");
 	} else if (G.cbmode) {
-		st = of_set_callback_functions (w->ses, src_cb, NULL, w);
+		st = VF_LIB (of_set_callback_functions (w->ses, src_cb, NULL, w));
 		if (st != OF_STATUS_OK) viol ("C11", "call=set_callback_functions|kind=status-not-ok");
 	}
 	return 1;
@@ -274,7 +288,7 @@ static void world_close (world_t *w)
 {
 	int i, j, n = G.n, k = G.k;
 	if (w->ses) {
-		of_status_t st = of_release_codec_instance (w->ses);
+		of_status_t st = VF_LIB (of_release_codec_instance (w->ses));
 		vf_stat_add (st_releases, 1);
 		if (st != OF_STATUS_OK) viol ("C08", "call=release|kind=status-not-ok");
 		/* application epilogue: free every source-table pointer the application did not supply */
@@ -347,9 +361,9 @@ static void observe (world_t *w, int kind, int st, int full)
 	const char *cn = G.codec == 1 ? "rs28" : G.codec == 2 ? (G.m == 4 ? "rs2m4" : "rs2m8") : G.codec == 5 ? "2d" : "ldpc";
 	const char *call = kind == 1 ? "DWS" : kind == 2 ? "SAS" : kind == 3 ? "FINISH" : "query";
 
-	complete = of_is_decoding_complete (w->ses) ? 1 : 0;
+	complete = VF_LIB (of_is_decoding_complete (w->ses)) ? 1 : 0;
 	for (i = 0; i < k; i++) w->src_tab[i] = w->poison;	/* "table, that will be filled by the library": stale content must not survive */
-	gst = (int) of_get_source_symbols_tab (w->ses, w->src_tab);
+	gst = (int) VF_LIB (of_get_source_symbols_tab (w->ses, w->src_tab));
 	w->last_gst = gst;
 	if (gst == OF_STATUS_OK)
 		for (i = 0; i < k; i++) if (w->src_tab[i] == w->poison) { snprintf (sig, sizeof sig, "codec=%s|call=get_source_symbols_tab|kind=table-entry-not-filled", cn); viol (G.cbmode ? "C11" : "C10", sig); viol ("C01", sig); w->src_tab[i] = NULL; }
@@ -494,7 +508,7 @@ static void op_dws (world_t *w, int e, int full)
 	if (e < G.k && !w->submitted[e] && !w->avail[e] && !(G.codec != 3 && w->was_complete)) w->first_ptr[e] = ptr;
 	if (!w->submitted[e]) { w->submitted[e] = 1; w->nsub++; }
 	w->path = 1;
-	st = (int) of_decode_with_new_symbol (w->ses, ptr, (UINT32) e);
+	st = (int) VF_LIB (of_decode_with_new_symbol (w->ses, ptr, (UINT32) e));
 	observe (w, 1, st, full);
 }
 static void op_sas (world_t *w, const unsigned char *member)
@@ -506,14 +520,14 @@ static void op_sas (world_t *w, const unsigned char *member)
 	}
 	memcpy (w->sas_copy, w->sas_tab, sizeof (void *) * (size_t) G.n);
 	w->path = 2;
-	st = (int) of_set_available_symbols (w->ses, w->sas_tab);
+	st = (int) VF_LIB (of_set_available_symbols (w->ses, w->sas_tab));
 	observe (w, 2, st, 1);
 }
 static void op_fin (world_t *w)
 {
 	int st;
 	g_rand_calls = 0;
-	st = (int) of_finish_decoding (w->ses);
+	st = (int) VF_LIB (of_finish_decoding (w->ses));
 	w->finished = 1;
 	vf_stat_add (st_finish, 1);
 	observe (w, 3, st, 1);
